@@ -323,8 +323,10 @@ class Union(Verb):
     def _clone(self) -> tuple["Union", dict[AstNode, AstNode], dict[UUID, UUID]]:
         child, nd_map, uuid_map = self.child._clone()
         right_child, right_nd_map, right_uuid_map = self.right._clone()
-        nd_map.update(right_nd_map)
-        uuid_map.update(right_uuid_map)
+        # The columns of a union are those of its left operand. If both operands are derived from
+        # the same table they share column ids, and the left operand's clone has to win.
+        nd_map = right_nd_map | nd_map
+        uuid_map = right_uuid_map | uuid_map
 
         cloned = copy.copy(self)
         cloned.child = child
